@@ -19,6 +19,15 @@ namespace c08
         virtual void  dealloc(void* p, const shape& s)        = 0;
         virtual bool  pristine(std::string& why)              = 0; // everything released => full capacity again
         virtual void  digest(hasher& h)                       = 0;
+        virtual int   iterations() // N of an iteration_allocator<N> behind the leaf, 0 otherwise
+        {
+            return 0;
+        }
+        virtual int cur_iteration()
+        {
+            return 0;
+        }
+        virtual void next_iteration() {}
     };
 
     // instrumented backend: first fit over 16 byte granules of a tiny buffer; the three buffers are adjacent
@@ -104,13 +113,71 @@ namespace c08
         A*                            a = nullptr;
         int                           id = 0;
         long                          cap0 = 0;
-        bool                          is_pool;
+        int                           warm_blocks = 1; // pools: grow to this many upstream blocks before the composition uses them
         void construct(int i) override
         {
             id = i;
             std::memset(g_leafobj[i], 0, sizeof(A));
             a    = make(g_leafobj[i], i);
             cap0 = cap();
+            if (warm_blocks > 1)
+            {
+                // warm-up phase: direct allocate_node calls until the arena has grown, then everything is given back
+                void* w[64];
+                int   nw = 0;
+                auto  blocks = [&] {
+                    int c = 0;
+                    for (int k = 0; k < UP().n; ++k)
+                        if (UP().b[k].owner == id)
+                            ++c;
+                    return c;
+                };
+                while (nw < 64 && (blocks() < warm_blocks || cap() > 0))
+                    w[nw++] = T::allocate_node(*a, 16, 8);
+                // the loop ends with `warm_blocks` blocks completely used
+                while (nw > 0)
+                    T::deallocate_node(*a, w[--nw], 16, 8);
+            }
+        }
+        template <class X = A>
+        auto iters_impl(int) -> decltype(X::max_iterations(), int())
+        {
+            return int(X::max_iterations());
+        }
+        int iters_impl(...)
+        {
+            return 0;
+        }
+        template <class X = A>
+        auto next_impl(int) -> decltype(std::declval<X&>().next_iteration(), int())
+        {
+            a->next_iteration();
+            return int(a->cur_iteration());
+        }
+        int next_impl(...)
+        {
+            return 0;
+        }
+        template <class X = A>
+        auto cur_impl(int) -> decltype(std::declval<X&>().cur_iteration(), int())
+        {
+            return int(a->cur_iteration());
+        }
+        int cur_impl(...)
+        {
+            return 0;
+        }
+        int iterations() override
+        {
+            return iters_impl(0);
+        }
+        int cur_iteration() override
+        {
+            return cur_impl(0);
+        }
+        void next_iteration() override
+        {
+            next_impl(0);
         }
         void destroy() override
         {
@@ -190,6 +257,7 @@ namespace c08
     {
         void* p;
         shape s;
+        int   slot; // iteration_allocator backend: internal stack active at allocation
     };
     struct leaf_state
     {
@@ -232,7 +300,7 @@ namespace c08
         }
         log_call(I, try_ ? 1 : 0, s, p, p != nullptr);
         if (p)
-            L.live.push_back({p, s});
+            L.live.push_back({p, s, L.be->cur_iteration()});
         return p;
     }
     inline void L_dealloc(int I, void* p, const shape& s)
@@ -333,6 +401,7 @@ namespace c08
     constexpr int                MAX_TRK = 4;
     static std::vector<trk_ev>   g_trkev;          // callbacks during the current operation
     static long                  g_trktot[MAX_TRK][2]; // per tracker: allocations, deallocations of the whole sequence
+    static long                  g_trkexpired[MAX_TRK]; // allocations below the tracker that expired through next_iteration()
     struct trk
     {
         int id = 0;
@@ -563,7 +632,16 @@ namespace c08
     {
         std::string name;
         backend*    be[3];
+        bool        extended = false; // run with the subset of compositions only
     };
+    inline bool comp_in_subset(const std::string& n)
+    {
+        static const char* sub[] = {"F01", "F01_2", "F0_12", "Fr0_1", "Fy0_1", "Ft0_1", "F_t0t1_2", "aF01_2", "S_F01_2", "Fsat0_1"};
+        for (auto x : sub)
+            if (n == x)
+                return true;
+        return false;
+    }
     inline std::vector<leaf_cfg> leaf_cfgs()
     {
         using AP = fm::memory_pool<fm::array_pool, vblk>;
@@ -588,6 +666,27 @@ namespace c08
         v.push_back({"Cii", {mk_real<CL>("collection<array_pool,log2>(max 16, block 192)", [](void* m, int id) { return ::new (m) CL(16, 192, id); }),
                              new slot_backend(32), new slot_backend(1008)}});
         v.push_back({"iiP", {new slot_backend(32), new slot_backend(32), pool(std::common_type<AP>{}, "memory_pool<array_pool>", 16, 4)}});
+        // extended configurations (subset of compositions): default pools that were WARMED UP to two upstream blocks before the
+        // composition uses them (so that the order of their block addresses matters), iteration allocators as default
+        {
+            auto w1 = pool(std::common_type<AP>{}, "memory_pool<array_pool>", 16, 2);
+            static_cast<real_backend<AP>*>(w1)->warm_blocks = 2;
+            w1->name += " warmed up to 2 blocks";
+            v.push_back({"P2ii", {w1, new slot_backend(32), new slot_backend(1008)}, true});
+            auto w2 = pool(std::common_type<NP>{}, "memory_pool<node_pool>", 16, 2);
+            static_cast<real_backend<NP>*>(w2)->warm_blocks = 3;
+            w2->name += " warmed up to 3 blocks";
+            auto w3 = pool(std::common_type<AP>{}, "memory_pool<array_pool>", 16, 2);
+            static_cast<real_backend<AP>*>(w3)->warm_blocks = 2;
+            w3->name += " warmed up to 2 blocks";
+            v.push_back({"N3P2i", {w2, w3, new slot_backend(1008)}, true});
+            using I2 = fm::iteration_allocator<2, vblk>;
+            using I3 = fm::iteration_allocator<3, vblk>;
+            v.push_back({"I2ii", {mk_real<I2>("iteration_allocator<2>(block 96)", [](void* m, int id) { return ::new (m) I2(96, id); }), new slot_backend(32),
+                                  new slot_backend(1008)}, true});
+            v.push_back({"I3Pi", {mk_real<I3>("iteration_allocator<3>(block 144)", [](void* m, int id) { return ::new (m) I3(144, id); }),
+                                  pool(std::common_type<AP>{}, "memory_pool<array_pool>", 16, 2), new slot_backend(1008)}, true});
+        }
         return v;
     }
 
@@ -604,6 +703,7 @@ namespace c08
             shape s;      // as requested by the user
             int   leaf;   // leaf that served it
             u32   pat;
+            int   slot;   // iteration_allocator behind the leaf: internal stack active at allocation
         };
         std::vector<live_t> live;
         u32                 next_pat = 0;
@@ -628,6 +728,8 @@ namespace c08
                 return (try_mode ? "try_allocate " : "allocate ") + alpha[op].str();
             if (op == 50)
                 return "try_deallocate(outsider pointer directly behind the leaf buffers)";
+            if (op == 60)
+                return "next_iteration() on the iteration_allocator behind leaf<0>";
             return fmt("%s live #%d", try_mode ? "try_deallocate" : "deallocate", op - 100);
         }
         void enabled(std::vector<int>& out)
@@ -637,13 +739,15 @@ namespace c08
                 out.push_back(i);
             if (try_mode)
                 out.push_back(50);
+            if (lc.be[0]->iterations() > 0)
+                out.push_back(60);
             for (std::size_t i = 0; i < live.size(); ++i)
                 out.push_back(100 + int(i));
         }
         u64 state_key()
         {
             hasher h;
-            h.bytes(UP().mem, UP().high);
+            UP().digest(h);
             for (int i = 0; i < cd.leaves; ++i)
             {
                 lc.be[i]->digest(h);
@@ -727,6 +831,7 @@ namespace c08
             cur_step      = -1;
             used_fallback = false;
             std::memset(g_trktot, 0, sizeof g_trktot);
+            std::memset(g_trkexpired, 0, sizeof g_trkexpired);
             g_trkev.clear();
             g_verbose_calls = verbose;
             // leaf buffers adjacent: leaf0 | leaf1 | leaf2 | outsider
@@ -803,7 +908,7 @@ namespace c08
                     }
                     if (p && !bad)
                     {
-                        live_t l{p, sh, served, next_pat++};
+                        live_t l{p, sh, served, next_pat++, served >= 0 ? lc.be[served]->cur_iteration() : 0};
                         fill_pattern(p, sh.bytes(), l.pat);
                         live.push_back(l);
                         bump(served == 0 ? "p2_served_by_default" : "p2_served_by_fallback");
@@ -821,6 +926,24 @@ namespace c08
                     if (verbose) res = p ? fmt("memory of leaf<%d>", served) : threw ? "exception" : "null";
                     if (!bad)
                         check_trackers(p ? served : -1, -1, p, op, nullptr);
+                }
+                else if (op == 60)
+                {
+                    // allocations of an iteration_allocator<N> live until next_iteration() was called N times
+                    lc.be[0]->next_iteration();
+                    int  cur = lc.be[0]->cur_iteration();
+                    auto& LL = g_leaf[0].live;
+                    std::size_t before = live.size();
+                    LL.erase(std::remove_if(LL.begin(), LL.end(), [&](const lrec& r) { return r.slot == cur; }), LL.end());
+                    live.erase(std::remove_if(live.begin(), live.end(), [&](const live_t& l) { return l.leaf == 0 && l.slot == cur; }), live.end());
+                    bump("p2_next_iteration");
+                    if (before != live.size())
+                        bump("p2_next_iteration_expired_allocations");
+                    for (std::size_t t = 0; t < cd.tmask.size(); ++t)
+                        if (cd.tmask[t] & 1u)
+                            g_trkexpired[t] += long(before - live.size());
+                    check_trackers(-1, -1, nullptr, op, nullptr);
+                    if (verbose) res = fmt("active stack %d, %zu allocation(s) expired", cur, before - live.size());
                 }
                 else if (op == 50)
                 {
@@ -877,6 +1000,8 @@ namespace c08
                         bad = true;
                     live.erase(live.begin() + idx);
                     bump(l.leaf == 0 ? "p2_released_to_default" : "p2_released_to_fallback");
+                    if (l.leaf == 0 && lc.be[0]->iterations() > 0 && l.slot != lc.be[0]->cur_iteration())
+                        bump("p2_released_memory_of_earlier_iteration");
                     if (counting()) class_keys().insert(fmt("%s|release|%d|%d|leaf%d", name().c_str(), int(l.s.array), int(l.s.count), l.leaf));
                     if (verbose) res = "released to leaf<" + std::to_string(where) + ">";
                     if (!bad && live.empty())
@@ -948,7 +1073,7 @@ namespace c08
                 }
                 if (vios().empty())
                     for (std::size_t t = 0; t < cd.tmask.size(); ++t)
-                        if (g_trktot[t][0] != g_trktot[t][1])
+                        if (g_trktot[t][0] != g_trktot[t][1] + g_trkexpired[t])
                             fail("tracker-unbalanced-at-end", fmt("everything released: tracker #%zu saw %ld allocation(s) and %ld deallocation(s)", t,
                                                                   g_trktot[t][0], g_trktot[t][1]));
                 if (!vios().empty())
